@@ -31,7 +31,7 @@ def c07(ctx, replay):
                 "{0,1,3} vs 1 on matching genes (emitted by MC_Compat at its terminal states, K=%d) plus structured long "
                 "pairs (Gen_Compat: prefixes, long excess tails, interleaved, disjoint ranges); each is measured on the "
                 "real code with both methods, both argument orders, 6 coefficient vectors, 3 scalings; non-trivial = "
-                "distinct case with at least one excess, one disjoint and one matching gene" % (5 if thorough else 4))
+                "distinct case with at least one excess, one disjoint and one matching gene" % (6 if thorough else 4))
     ctx.assumptions = ["genes sorted by innovation number (quantifier of C07)",
                        "dyadic coefficients and mutation numbers so that every product is exact; 1e-12 relative "
                        "tolerance only for the single division by the matching count"]
@@ -47,7 +47,7 @@ def c07(ctx, replay):
         spec_must_hold(g, "Gen_Compat")
         ncases = cat_files(cases_file, [mc.cases_file, fam])
         ctx.exhaustive = True
-        ctx.extra["scope"] = {"K": 5 if thorough else 4, "cases": ncases}
+        ctx.extra["scope"] = {"K": 6 if thorough else 4, "cases": ncases}
     rep_file = ctx.path("compat_report.json")
     _, rep, _ = ctx.vh(["replay-compat", "-cases", cases_file, "-out", rep_file], expect_report=rep_file)
     ctx.add_report(rep, "compat", traces=rep.get("cases", 0))
